@@ -105,6 +105,7 @@ class Engine:
         self.violations = []
         self.truncated = 0
         self.lazy_recip = False
+        self.index_mode = "obligation"  # "python": an out-of-range index raises IndexError on that path (numpy semantics) instead of being an obligation
         self.max_values_per_site = 40
         self.stop_after_failures = 40
         self.stopped_early = False
